@@ -167,7 +167,7 @@ func inlineFileByHandWith(files handFiles, name string, depth int, inherited *ha
 }
 
 func inlineFileByHandWith0(files handFiles, name string, depth int, inherited *handDefs) ([]string, *handDefs, error) {
-	if depth > 10 {
+	if depth > 200 {
 		return nil, nil, fmt.Errorf("include depth")
 	}
 	content, found := files[strings.TrimSuffix(name, ".ra")]
@@ -584,6 +584,23 @@ func genParserCases(focus string) func(r *rand.Rand, tier string, env *Env) []Ca
 					args := append(append(append([][]byte{}, empty...), []byte(prog)), nf...)
 					cases = append(cases, Case{Kind: "big-nested-include", Ops: []Op{{"parse.run", args[6:]}}, Oracles: []Op{{"parser.inline", args}}})
 				}
+			}
+			for _, depth := range []int{17, 20, 33} {
+				// include chains far deeper than any real tree: every level contributes its own entry
+				cf := append([][]byte{}, files...)
+				for d := 1; d <= depth; d++ {
+					body := fmt.Sprintf("level%02d\n", d)
+					if d < depth {
+						body += fmt.Sprintf("##!> include chain%02d%s\n", d+1, []string{"", ".ra"}[d%2])
+					}
+					cf = append(cf, []byte([]string{"i", "e"}[d%3/2]), []byte(fmt.Sprintf("chain%02d.ra", d)), []byte(body))
+				}
+				prog := "top\n##!> include chain01\nend\n"
+				if focus == "except" {
+					prog = "##!> include-except chain01 none\n"
+				}
+				args := append(append(append([][]byte{}, empty...), []byte(prog)), cf...)
+				cases = append(cases, Case{Kind: "deep-include-chain", Ops: []Op{{"parse.run", args[6:]}, {"gen.run", args}}, Oracles: []Op{{"parser.inline", args}}})
 			}
 			for _, k := range names {
 				progs := []string{"a\n##!> include " + k + "\nb\n", "##!> include " + k + "\n", "##!> assemble\nx\n##!> include " + k + "\n##!=>\ny\n##!<\n"}
